@@ -742,7 +742,7 @@ fn gen_case(batch: &str, _index: u64, seed: u64) -> Case {
         return Case { mode: "direct".into(), data, k, max_iter: 1, f32m, centroids: cents, queries: vec![], tape: TapeSpec::prng(tape_seed), kind: format!("{}/{}", dname, cname) };
     }
     ensure_distinct(&mut data, &mut k, f32m);
-    let max_iter = *pr.pick(&[1usize, 1, 2, 2, 3, 5, 10, 30, 100, 100]);
+    let max_iter = if pr.chance(0.6) { *pr.pick(&[1usize, 1, 2, 2, 3, 5, 10, 30, 100, 100]) } else { pr.usize_in(1, 100) };
     let nq = pr.usize_in(0, 6);
     let s = scale_of(&data, &[]).max(1e-3);
     let far = if pr.chance(0.2) { 100.0 } else { 1.0 };
